@@ -15,13 +15,48 @@ DECIDES = ('grid, quad and triangle index arithmetic follows the sample grid lay
            'facet count equal to the list iterated, one normal from triangle_normal(t) and the three vertices of t per facet (ST1); the '
            'container tessellates serially and in parallel with the same worker (AG5); the trimming point-in-polygon test uses the non-zero '
            'winding rule (WN1); [SKEL, bounded] make_triangle_mesh never indexes outside its vertex array and creates exactly one vertex per '
-           'strided sample for sample sizes 2..13 (thorough: 2..40), square and non-square, every spacing dividing size - 1. every surface of a container gets its own tessellator object (IV7).')
+           'strided sample for sample sizes 2..13 (thorough: 2..40), square and non-square, every spacing dividing size - 1. every surface of a container gets its own tessellator object (IV7). the container forces its elements to be numbered afresh before it adds the running id offsets to their vertices and faces (OFF1); every shipped tessellator accepts the keywords Surface.tessellate passes and gives its vertices their parameters (TK1); the vertex pass and the triangle pass of the trimming tessellator read and set the same sticky flags in the same branches (TR1); vertices are re-evaluated on every path that tessellates (TV1); each vertex object occurs once with ids 0..N-1 also when the tessellation function hands grid vertices back (FN2, SKEL); no mesh element caches values derived from its vertices (IV5); the mesh exporters copy sample sizes per direction (AXK).')
 NOT_DECIDED = 'Euler characteristic, orientation, exact tiling, that vertex positions equal the surface (needs C01), trimmed region vs cell size, normals\' direction: geometric/numerical.'
 TECHNIQUE = 'stride rule on preallocated arrays, axis tags, writer structure rules, branch equivalence; bounded index-skeleton interpretation'
 
 
 def site(fi, node=None):
     return 'geomdl/%s.py:%s in %s' % (fi.mod, getattr(node or fi.node, 'lineno', '?'), fi.key)
+
+
+def tr1(m, run):
+    """TR1: surface_trim_tessellate classifies the four cell vertices and then the candidate triangles against every trim curve with the
+    same two sticky flags: inside a reversed trim an element is kept unless it is already marked 'trim' (and is then marked 'no_trim');
+    outside a reversed trim it is dropped unless it is marked 'no_trim'.  The two passes must read and write the same flags in the same
+    branches, and each pass reads both flags."""
+    fi = m.func('_tessellate.surface_trim_tessellate')
+    passes = []
+    for lp in [x for x in walk_no_nested(fi.node) if isinstance(x, ast.For)]:
+        inner = [y for y in lp.body if isinstance(y, ast.For) and norm(y.iter) == 'trims'] if isinstance(lp, ast.For) else []
+        for tl in inner:
+            reads = [c.args[0].value for c in ast.walk(tl) if isinstance(c, ast.Call) and isinstance(c.func, ast.Attribute) and c.func.attr == 'opt_get'
+                     and c.args and isinstance(c.args[0], ast.Constant)]
+            # collapse `x is None or not x` to one read per test
+            tests = []
+            for t in [y for y in ast.walk(tl) if isinstance(y, ast.If)]:
+                ks = sorted({c.args[0].value for c in ast.walk(t.test) if isinstance(c, ast.Call) and isinstance(c.func, ast.Attribute) and c.func.attr == 'opt_get'
+                             and c.args and isinstance(c.args[0], ast.Constant)})
+                if ks:
+                    tests.append((t.lineno, tuple(ks)))
+            writes = [(a.lineno, a.value.elts[0].value) for a in ast.walk(tl) if isinstance(a, ast.Assign) and isinstance(a.targets[0], ast.Attribute) and a.targets[0].attr == 'opt'
+                      and isinstance(a.value, ast.List) and a.value.elts and isinstance(a.value.elts[0], ast.Constant)]
+            passes.append((lp, [k for _, k in sorted(tests)], [k for _, k in sorted(writes)]))
+    if len(passes) != 2:
+        raise AnalysisError('surface_trim_tessellate: expected a vertex pass and a triangle pass over the trims, found %d' % len(passes))
+    (l1, t1, w1), (l2, t2, w2) = passes
+    same = t1 == t2 and w1 == w2
+    run.ob('TR1.vertex-and-triangle-pass-agree', fi.key, same, 'both passes test %s and set %s' % (t1, w1) if same else
+           'the vertex pass tests the flags %s and sets %s, the triangle pass tests %s and sets %s: the two classifications must use the same flags in the same branches'
+           % (t1, w1, t2, w2), site(fi, l1))
+    for lp, t, w in passes:
+        both = {k for ks in t for k in ks} == {'trim', 'no_trim'} and set(w) == {'trim', 'no_trim'}
+        run.ob('TR1.both-flags-read', '%s :: pass at line %d' % (fi.key, lp.lineno), both, 'reads and sets both sticky flags' if both else
+               'the pass reads the flags %s and sets %s: the keep-decision outside a reversed trim must consult `no_trim`, the one inside it `trim`' % (t, w), site(fi, lp))
 
 
 def tk1(m, run):
@@ -148,6 +183,7 @@ def check(m, run):
     wn1(m, run)
     off1(m, run)
     tk1(m, run)
+    tr1(m, run)
     c12_mod = __import__('sa.checks.c12', fromlist=['iv7'])
     c12_mod.iv7(m, run)
     from . import c12
@@ -257,6 +293,21 @@ def tv1(m, run):
             okr = same and ev and full and okskip
     run.ob('TV1.vertex-on-surface', fi.key, okr, 'every vertex k gets evaluate_single(vertex k .uv)' if okr else
            'vertex positions are not re-evaluated at their own stored parameters for every vertex', site(fi))
+    # ... on every path: once the component has tessellated, no normal exit is reached without passing the re-evaluation loop (the
+    # vertices are created from the cached evaluated points, which need not cover the whole domain: evaluate(start=..., stop=...) )
+    from ..cfg import CFG
+    cfg = CFG(fi.node)
+    loops = [lp for lp in walk_no_nested(fi.node) if isinstance(lp, ast.For) and any(isinstance(s_, ast.Assign) and isinstance(s_.targets[0], ast.Attribute)
+                                                                                     and s_.targets[0].attr == 'data' for s_ in lp.body)]
+    if calls and loops:
+        cn, ln = cfg.node_of(calls[0]), cfg.of.get(loops[0])
+        after = set()
+        for sc_, lab in cn.succ:
+            after |= cfg.reach_from(sc_, skip_nodes=[ln])
+        skipped = cfg.exit in after
+        run.ob('TV1.re-evaluation-on-every-path', fi.key, not skipped, 'the re-evaluation loop follows the tessellation on every path' if not skipped else
+               'a path returns after the component has tessellated without re-evaluating the vertices: their positions are then the cached evaluated points, '
+               'which belong to whatever sub-range was evaluated last, while their (u, v) span the full domain', site(fi, loops[0]))
 
 
 def ag6(m, run):
